@@ -154,12 +154,12 @@ class Flattener:
         if not targets and isinstance(fn, ast.Attribute):
             # receiver type unknown: a *new* helper method whose name is defined exactly once in the repo
             cands = [f for f in self.repo.funcs.values() if f.name == fn.attr and f.cls is not None]
-            if len(cands) == 1 and cands[0].qualname not in KNOWN_FUNCS:
+            if len(cands) == 1 and not self.repo.is_known(cands[0].qualname):
                 targets = cands
         if len(targets) != 1:
             return None
         t = targets[0]
-        if (t.qualname in KNOWN_FUNCS or t.qualname.split("#")[0] in KNOWN_FUNCS) and t.qualname not in self.force:
+        if self.repo.is_known(t.qualname) and t.qualname not in self.force:
             return None
         if t.qualname in stack or t.name == "__init__":
             return None
